@@ -457,6 +457,23 @@ class Table(JSONData):          # a data class whose objects are made by run, wi
         super().__init__()
         self._value = rows
 
+class TextData(JSONData):       # a data class of the user's own: load() sets the value on the object and returns nothing
+    DATA_TYPES = []
+    @property
+    def extension(self):
+        return 'txt'
+    def save(self):
+        self.path.write_text(self._value)
+    def load(self, data_type=None):
+        self._value = self.path.read_text()
+
+class Notes(Task):
+    class Meta:
+        data_class = TextData
+    def run(self) -> str:
+        RUNS.append('notes')
+        return 'three rows'
+
 class Raw(Task):
     def run(self) -> dict:
         RUNS.append('raw')
@@ -471,10 +488,10 @@ class Rows(Task):
 
 class Report(Task):
     class Meta:
-        input_tasks = [Rows]
-    def run(self, rows) -> dict:
+        input_tasks = [Rows, Notes]
+    def run(self, rows, notes) -> dict:
         RUNS.append('report')
-        return {'n': len(rows)}
+        return {'n': len(rows), 'notes': notes}
 '''
 
 
@@ -531,10 +548,13 @@ class InspectionRunsNothing(Suite):
             return f'unexpected exception {obs["unexpected_exception"]}: {obs["text"]}'
         if obs['ran']:
             return f'{case}: inspecting the chain ({case["call"]}) executed {obs["ran"]}'
-        if obs['value'] != {'n': 3}:
+        if obs['value'] != {'n': 3, 'notes': 'three rows'}:
             return f'{case}: report yields {obs["value"]}'
-        if any(obs['ran_value'].count(n) > 1 for n in ('raw', 'rows', 'report')):
+        if any(obs['ran_value'].count(n) > 1 for n in ('raw', 'rows', 'report', 'notes')):
             return f'{case}: the request ran a task twice: {obs["ran_value"]}'
+        # a stored result of a data class that can be made without arguments is loaded, by a new chain too
+        if case['computed'] and ('notes' in obs['ran_value'] or 'report' in obs['ran_value'] or 'raw' in obs['ran_value']):
+            return f'{case}: everything was computed and stored by an earlier chain; the request of a new chain ran {obs["ran_value"]}'
         return None
 
     def nontrivial(self, case, obs):
